@@ -14,7 +14,7 @@ pub fn spaces(tier: Tier) -> Vec<Space> {
     let mut v = Vec::new();
     match tier {
         Tier::Quick => {
-            for f in 0..14 {
+            for f in 0..16 {
                 let k = if (4..=6).contains(&f) { 3 } else { 2 };
                 v.push(seqspace::eseq(f, k));
             }
@@ -27,7 +27,7 @@ pub fn spaces(tier: Tier) -> Vec<Space> {
             v.push(seqspace::echar(2, 4));
         }
         Tier::Thorough => {
-            for f in 0..14 {
+            for f in 0..16 {
                 let k = if (4..=6).contains(&f) { 4 } else { 3 };
                 v.push(seqspace::eseq(f, k));
             }
@@ -44,6 +44,21 @@ pub fn spaces(tier: Tier) -> Vec<Space> {
     }
     v.push(seqspace::keyword_table());
     v.push(seqspace::lexeme_variants());
+    v
+}
+
+/// The same spaces without the deepest token-sequence trees (used by C04's quick tier, whose
+/// exact part is already large).
+pub fn spaces_light(tier: Tier) -> Vec<Space> {
+    let mut v = spaces(tier);
+    if tier == Tier::Quick {
+        for sp in v.iter_mut() {
+            if sp.name.starts_with("E-SEQ/F4") || sp.name.starts_with("E-SEQ/F5") || sp.name.starts_with("E-SEQ/F6") {
+                let f = if sp.name.starts_with("E-SEQ/F4") { 4 } else if sp.name.starts_with("E-SEQ/F5") { 5 } else { 6 };
+                *sp = seqspace::eseq(f, 2);
+            }
+        }
+    }
     v
 }
 
